@@ -95,3 +95,10 @@ C('C07', 'differential oracle (in-line pycparser-based parser vs C parser of an 
 C('C26', 'event log (one lock, logical clock) + offline checker over scenarios of both implementations under yield injection (sys.monitoring LINE events in FFI.init_once, yielding tag __hash__/__eq__, sleeping initializers, 1 us switch interval); TSan build on a sample of the C implementation',
   'Exploration: scenarios of 2-4 threads x 1-3 tags x 1-3 rounds with scripted succeeding/raising/sleeping initializers on cffi.FFI and _cffi_backend.FFI; checker per tag: no overlapping initializers, at most one normal completion, every normal return carries it, nothing starts after it, own exception propagates and is not cached, every call returns; deadlock decided on logical evidence. Evidence lists distinct interleaving signatures and observed raise-vs-success races.',
   'All interleavings are not enumerated (no model checking in this family); TSan reports decide only inside ffi_init_once.')
+
+C('C22', 'value-transfer monitor over 7 call paths + event log of tagged errno values across Python and foreign threads (ASan build), repeated on the TSan build where a race on the errno save slot is deciding',
+  'Exploration: single-thread transfers of boundary/random values through API, libffi, in-line ABI, callback, extern "Python" and global-variable-fetch paths with Python activity that changes the real errno in between; multi-thread runs of 2-4 Python threads + 0-3 pthreads with values tagged by thread identity under a 1 us switch interval and random yields: a thread only ever observes its own latest value; the C driver checks errno assigned inside callbacks run on foreign threads.',
+  'gcc-compiled helper functions read/write the real errno. TSan decides only for frames at the errno slot.')
+C('C36', 'event log + offline checker of callbacks invoked from pthreads Python did not create (waves, scripted exit delays) under concurrent Python-thread activity; ASan/UBSan deciding for crashes/use-after-free, TSan as observation',
+  'Exploration: scenarios of 2-5 waves of 1-12 foreign threads x 0-50 calls through ffi.callback or extern "Python", with GC / callback creation / C calls on 0-2 Python threads; per foreign thread: stable thread ident, threading.local counter 0,1,2,... (state persists), never another thread\'s data, exactly one event per scripted call, process survives.',
+  'Thread-state validity is observed behaviourally; the known zombie-list fast-path race reported by TSan is an observation. Interpreter shutdown while foreign threads still call back is outside the statement (CPython limitation).')
